@@ -116,6 +116,8 @@ def select(mode):
     if mode == 'red3':
         un = ['neg', 'cmuli', 'divci', 'divcT', 'subcT', 'csubi', 'subcu']
         return trees(3, ['X1', 'D1', 'V'], un, BIN)
+    if mode == 'k2v':
+        return [t for t in trees(2) if has_v(t)]   # two-node trees with a spline-valued factor (where memory errors are plausible)
     if mode == 'uu':
         # every scalar/unary node applied to every scalar/unary node (22 x 22) over three leaves: the two-node
         # trees in which one scalar operation wraps another one directly
